@@ -678,7 +678,7 @@ pub fn run(args: &Args) -> i32 {
          were all built and compared; distinct = distinct output partitions x limits x case content",
     );
     let n_shards = 64u64;
-    let per_shard = args.scale(15_000, 200_000);
+    let per_shard = args.scale(10_000, 150_000);
     vcommon::monitor::run_shards(&mut mon, args.threads, n_shards, |shard, m| {
         if shard == 0 {
             memo_witness(m);
